@@ -116,12 +116,18 @@ def main():
             out.append({"err": "missing function"})
             continue
         args = copy.deepcopy(c["args"])
+        base = None
+        if "base" in c:      # an output array that must live inside a larger sentinel buffer (deepcopy would detach the view)
+            base = c["base"].copy()
+            k = c["base_arg"]
+            n0 = c["args"][k].shape[0]
+            args[k] = base[n0:2 * n0]
         try:
             signal.setitimer(signal.ITIMER_REAL, 20.0)
             r = f(*args)
             signal.setitimer(signal.ITIMER_REAL, 0)
             out.append({"ret": r if r is None or np.isscalar(r) or isinstance(r, tuple) else np.asarray(r),
-                        "arrays": [a if isinstance(a, np.ndarray) else None for a in args]})
+                        "arrays": [a if isinstance(a, np.ndarray) else None for a in args] + ([base] if base is not None else [])})
         except _TO:
             out.append({"err": "timeout"})
         except Exception as ex:
